@@ -579,6 +579,14 @@ func TestCheck(t *testing.T) {
 							t.Fatalf("replay: %v", err)
 						}
 					}
+					if st%3 == 1 {
+						// the mutants of this state meet a node that has just been restarted:
+						// every rule holds from the first block on
+						if err := rep.Restart(); err != nil {
+							t.Fatalf("restart: %v", err)
+						}
+						run.Obs("replicas_restarted_before_the_offers", 1)
+					}
 					// pooled transactions: some of the next block's and some never mined
 					for _, tx := range h.Txs[st] {
 						if r.Intn(2) == 0 {
@@ -597,8 +605,11 @@ func TestCheck(t *testing.T) {
 						if err := rep.AddHeaderRaw(p.Raw[st]); err != nil {
 							t.Fatalf("add header: %v", err)
 						}
-						if st+1 < len(p.Raw) && r.Intn(2) == 0 {
+						if st+1 < len(p.Raw) && (st%2 == 0 || r.Intn(2) == 0) {
 							_ = rep.AddHeaderRaw(p.Raw[st+1])
+						}
+						if st%2 == 0 && st+2 < len(p.Raw) {
+							_ = rep.AddHeaderRaw(p.Raw[st+2])
 						}
 					}
 					return true
@@ -620,6 +631,14 @@ func TestCheck(t *testing.T) {
 						m := clone(b, srih)
 						m.Script.InvocationScript = w.inv
 						am = append(am, mutant{name: "headers-ahead:" + w.name, raw: vchain.EncodeBlock(m)})
+					}
+					// the genuine successors, whose headers are recorded too, offered
+					// before their predecessor: not the next index, whatever is known ahead
+					if st%2 == 0 && st+1 < len(p.Raw) {
+						am = append(am, mutant{name: "headers-ahead:genuine-successor-before-its-predecessor", raw: p.Raw[st+1]})
+						if st+2 < len(p.Raw) {
+							am = append(am, mutant{name: "headers-ahead:genuine-second-successor-before-its-predecessors", raw: p.Raw[st+2]})
+						}
 					}
 					ms = append(am, ms...)
 				}
